@@ -30,7 +30,8 @@ PY_ERR = [
     ("Need to specify simulation", 9), ("You need to pass either a semimajor axis or orbital period", 10),
     ("You can pass either the semimajor axis or orbital period, but not both", 11),
     ("Passed (ix, iy) coordinates are not valid", 12), ("Can't pass both omega and pomega", 13),
-    ("Can only pass one longitude/anomaly", 14), ("Semi-major axis (or orbital period) cannot be zero", 15)]
+    ("Can only pass one longitude/anomaly", 14), ("Semi-major axis (or orbital period) cannot be zero", 15),
+    ("NaN passed as an argument", 16)]
 
 
 def c_err_table():
@@ -131,7 +132,7 @@ def gen_case(rng, names, allow_nan=True):
     if "hash" in names:
         vals["hash"] = rng.randrange(1, 2 ** 32)
     if allow_nan and rng.random() < 0.04:
-        cand = [n for n in names if n in DARGS and n not in ("m", "r")]
+        cand = [n for n in names if n in DARGS]
         if cand:
             vals[rng.choice(cand)] = float("nan")
     return case
@@ -493,8 +494,8 @@ def run(ctx):
     L = Lib(libdir)
     drv = build_driver(libdir)
     ctab = c_err_table()
-    ctx.obligation("regenerate:error-strings of reb_string_for_particle_error (15 classes read from src/tools.c)",
-                   len(ctab) == 15 and sorted(ctab.values()) == list(range(1, 16)), str(sorted(ctab.values())))
+    ctx.obligation("regenerate:error-strings of reb_string_for_particle_error (16 classes read from src/tools.c)",
+                   len(ctab) == 16 and sorted(ctab.values()) == list(range(1, 17)), str(sorted(ctab.values())))
     rng = ctx.rng
 
     # ---------------- (a) parser cases
@@ -604,7 +605,7 @@ def run(ctx):
                "c": str(c_out[i]), "python": str(py_out[i])}
         if hasnan:
             n_nan += 1
-            found.setdefault("parser:nan-valued-argument", (rep, "C and Python front ends treat a NaN-valued argument differently (C: not given; Python: given, may silently give a NaN particle)"))
+            found.setdefault("parser:nan-valued-argument", (rep, "C and Python front ends treat a NaN-valued argument differently (both must reject it with error 16)"))
         else:
             cross.append(rep)
     for key, (rep, what) in found.items():
@@ -616,8 +617,32 @@ def run(ctx):
     ctx.extra["parser_known_disagreements_seen"] = {"nan-valued": n_nan, "python ZeroDivisionError where C returns an error code": n_x, "both reject with different error class": n_cls}
 
     # ---------------- (b) numerics: Coq binary64 model vs library
+    ctx.log("parser part done")
     ncases = gen_numeric_cases(L, rng, ctx.scale(400, 4000), ctx.scale(400, 4000))
     ncases += c11_mirror.gen_cases(L, rng, ctx.scale(400, 4000), ctx.scale(300, 3000))
+    # the value flow of both front ends (Flow.v at binary64 + model of reb_particle_from_orbit_err) against what
+    # reb_particle_from_fmt / rebound.Particle returned for the accepted classical requests of part (a)
+    nflow = 0
+    if dec_ok:
+        for i, c in enumerate(cases):
+            dc, dp = decs[i]
+            if dc < 1000 or dc != dp or nflow >= ctx.scale(300, 3000):
+                continue
+            if "primary" in c["names"]:
+                prim = list(c["prim"])
+            else:
+                cm = L.clib.reb_simulation_com(ctypes.byref(L.mk_sim(c)))
+                prim = [cm.m, cm.x, cm.y, cm.z, cm.vx, cm.vy, cm.vz]
+            for front, out in (("c", c_out[i]), ("py", py_out[i])):
+                if out[0] == "E":
+                    exp = [float(out[1])]
+                elif out[0] == "P":
+                    exp = [0.0, out[1]] + list(out[4:10])
+                else:
+                    continue
+                ncases.append(("flow_" + front, c11_mirror.flow_case(L, c, dc, front, prim), exp,
+                               {"names": c["names"], "vals": {k: (v.hex() if isinstance(v, float) else v) for k, v in c["vals"].items()}, "decision": dc}))
+            nflow += 1
     jobs = []
     chunk = 100
     for c0 in range(0, len(ncases), chunk):
@@ -638,7 +663,7 @@ def run(ctx):
     nan_bad = [d for k, _, _, d in ncases if k == "from_orbit" and not d["nan_particle_on_error"]]
     from collections import Counter
     ctx.extra["numeric_cases"] = dict(Counter(k for k, _, _, _ in ncases))
-    ctx.obligation("correspondence:C11 model(binary64, libm tables) == reb_particle_from_orbit_err / reb_mod2pi / reb_M_to_E / reb_E_to_f / reb_M_to_f / reb_orbit_from_particle_err / reb_tools_solve_kepler_pal / reb_particle_from_pal / reb_tools_particle_to_pal bit-for-bit on %d cases" % len(ncases),
+    ctx.obligation("correspondence:C11 model(binary64, libm tables) == reb_particle_from_orbit_err / reb_mod2pi / reb_M_to_E / reb_E_to_f / reb_M_to_f / reb_orbit_from_particle_err / reb_tools_solve_kepler_pal / reb_particle_from_pal / reb_tools_particle_to_pal / value flow of both front ends bit-for-bit on %d cases" % len(ncases),
                    corr_ok and not bad_total, "mismatching (%d): %s" % (len(bad_total), [(ncases[b][0], ncases[b][3]) for b in bad_total[:4]]))
     ctx.obligation("correspondence:C11 an error code of reb_particle_from_orbit_err comes with an all-NaN particle",
                    not nan_bad, str(nan_bad[:2]))
@@ -648,6 +673,7 @@ def run(ctx):
         ctx.case(key=(k, d.get("err", 0), (d.get("e", 0) if "e" in d else d.get("case", {}).get("e", 0)) > 1))
 
     # ---------------- (c) searcher
+    ctx.log("numerics done")
     S.search(ctx, L)
 
     ctx.rule = ("parser: all subsets of <=3 of the 27 optional arguments + random subsets (sizes 0..27), with/without simulation, "
